@@ -164,14 +164,16 @@ def _classpath():
     return TLC_JAR + (':' + CM_JAR if CM_JAR else '')
 
 
-def run_tlc(module, cfg, scratch, workers=None, extra=None, timeout=600, env=None, tag=None, heap='4g', depth_first=False):
+def run_tlc(module, cfg, scratch, workers=None, extra=None, timeout=600, env=None, tag=None, heap='4g', depth_first=False, spec_dir=None, extra_modules=()):
     """Runs TLC on spec/<module>.tla with cfg (path); returns dict with stdout, states, distinct, violated invariant etc."""
     tag = tag or module
     wd = os.path.join(scratch, 'tlc-' + tag)
     if os.path.exists(wd):
         shutil.rmtree(wd)
     os.makedirs(wd)
-    for f in glob.glob(os.path.join(SPEC, '*.tla')):
+    for f in glob.glob(os.path.join(spec_dir or SPEC, '*.tla')):
+        shutil.copy(f, wd)
+    for f in extra_modules:
         shutil.copy(f, wd)
     shutil.copy(cfg, os.path.join(wd, module + '.cfg'))
     jopts = ['-Xss64m', '-Xmx' + heap, '-XX:+UseParallelGC']
